@@ -1,3 +1,3 @@
 Require Import LV.Model.TlsPolicyModel LV.Spec.TlsPolicySpec.
 Require Import ExtrOcamlBasic.
-Extraction "c08_model" run is_secured tls_new cell_scenario table_secured cert_verifies policy_ok.
+Extraction "c08_model" run is_secured tls_new effective_cb cell_scenario table_secured cert_verifies policy_ok.
